@@ -25,11 +25,13 @@ class Tracker:
         self.processed = None     # the inbound line processed by the current op (or None)
         self.popped = None        # the shadow entry popped by the current pump op
         self.current_line = None
+        self.opno = 0             # number of the current op (shadow entries remember when they were enqueued)
 
     def sleeping_now(self):
         return frozenset(n for n, s in self.im.gw.sensors.items() if getattr(s, "is_smart_sleep_node", False))
 
     def before(self, op):
+        self.opno += 1
         self.processed = None
         self.popped = None
         kind = op[0]
@@ -49,7 +51,7 @@ class Tracker:
             real = len(self.im.gw.tasks.queue)
             origin = self.processed if self.processed is not None else ("call", op[0])
             while len(self.shadow) < real:
-                self.shadow.append(("N", origin, self.pre_sleeping))
+                self.shadow.append(("N", origin, self.pre_sleeping, self.opno))
             if len(self.shadow) > real:      # should not happen
                 del self.shadow[real:]
 
